@@ -418,7 +418,8 @@ Inductive cmd :=
 | CIdentify (name : str)
 | CUnidentify
 | CChangename (name newname : str)
-| CRegister (name : str).
+| CRegister (name : str)
+| CSecure (value : option bool).       (* user set secure <password> [<True|False>] *)
 
 (* state, "The operation succeeded", a lookup ran the Multiple-matches branch,
    users.setUser (or the edit just before it) raised *)
@@ -442,6 +443,7 @@ Definition lookup (timeout now : Z) (s : st) (h : str) : st * res N * bool :=
 Definition store (s : st) (id : N) (u : user) : st := with_users s (uset id u (s_users s)).
 Definition set_masks (u : user) (ms : list str) : user := User (u_name u) ms (u_auth u) (u_secure u).
 Definition set_name (u : user) (n : str) : user := User n (u_masks u) (u_auth u) (u_secure u).
+Definition set_auth (u : user) (a : list (Z * str)) : user := User (u_name u) (u_masks u) a (u_secure u).
 Definition iset_add (x : str) (l : list str) : list str := if existsb (ieq x) l then l else l ++ [x].
 
 (* the otherUser converter on a plain name: users.getUser(name) *)
@@ -500,7 +502,8 @@ Definition add_commit (timeout now : Z) (s4 : st) (uid : N) (u1 : user) (mask : 
   | Ok _ => (s6, true, false)
   | Raise e =>
       match first_handler gen.T04.HM_ADD_HANDLERS e with
-      | Some true =>                                  (* user.removeHostmask(hostmask) *)
+      | Some true =>                                  (* [if not alreadyThere:] user.removeHostmask(hostmask) *)
+          if gen.T04.HM_ADD_GUARDED && existsb (ieq mask) (u_masks u1) then (s6, false, true) else
           match uget uid (s_users s6) with
           | Some u6 =>
               match iset_remove mask (u_masks u6) with
@@ -537,7 +540,14 @@ Definition cmd_remove (timeout now : Z) (o : oracle) (s : st) (P name mask : str
       | Ok ms =>
           let u2 := set_masks u1 ms in
           let '(s4, r4) := setUser timeout now (store s3 uid u2) uid u2 in
-          match r4 with Ok _ => Out s4 true a0 false | Raise _ => Out s4 false a0 true end
+          match r4 with
+          | Ok _ => Out s4 true a0 false
+          | Raise e =>
+              match first_handler gen.T04.REMOVE_HANDLERS e, uget uid (s_users s4) with
+              | Some true, Some u4 => Out (store s4 uid (set_masks u4 (u_masks u1))) false a0 true   (* user.hostmasks = hostmasks *)
+              | _, _ => Out s4 false a0 true
+              end
+          end
       end
     end
   end.
@@ -555,10 +565,11 @@ Definition cmd_identify (timeout now : Z) (o : oracle) (s : st) (P name : str) :
           let '(s3, r3) := setUser timeout now (store s2 uid u') uid u' in
           match r3 with
           | Ok _ => Out s3 true a0 false
-          | Raise e => match first_handler gen.T04.IDENTIFY_HANDLERS e with
-                       | Some _ => Out s3 false a0 true
-                       | None => Out s3 false a0 true
-                       end
+          | Raise e =>
+              match first_handler gen.T04.IDENTIFY_HANDLERS e, uget uid (s_users s3) with
+              | Some true, Some u3 => Out (store s3 uid (set_auth u3 (u_auth u))) false a0 true      (* user.auth = auth *)
+              | _, _ => Out s3 false a0 true
+              end
           end
       end
     else Out s2 false a0 false
@@ -576,7 +587,14 @@ Definition cmd_unidentify (timeout now : Z) (s : st) (P : str) : outcome :=
         match uget uid (s_users s2) with
         | Some u =>
             let '(s3, r3) := setUser timeout now s2 uid u in
-            match r3 with Ok _ => Out s3 true a0 false | Raise _ => Out s3 false a0 true end
+            match r3 with
+            | Ok _ => Out s3 true a0 false
+            | Raise e =>
+                match first_handler gen.T04.UNIDENTIFY_HANDLERS e, uget uid (s_users s3), uget uid (s_users s1) with
+                | Some true, Some u3, Some u1 => Out (store s3 uid (set_auth u3 (u_auth u1))) false a0 true   (* user.auth = auth *)
+                | _, _, _ => Out s3 false a0 true
+                end
+            end
         | None => Out s2 false a0 true
         end
     end
@@ -599,7 +617,19 @@ Definition cmd_changename (timeout now : Z) (o : oracle) (s : st) (P name newnam
       if truthy x || o_pw o then
         let u2 := set_name u1 newname in
         let '(s5, r5) := setUser timeout now (store s4 uid u2) uid u2 in
-        match r5 with Ok _ => Out s5 true a0 false | Raise _ => Out s5 false a0 true end
+        match r5 with
+        | Ok _ => Out s5 true a0 false
+        | Raise e =>
+            match first_handler gen.T04.CHANGENAME_HANDLERS e, uget uid (s_users s5) with
+            | Some true, Some u5 =>                       (* user.name = oldname; users.invalidateCache(user.id) *)
+                let s6 := store s5 uid (set_name u5 (u_name u1)) in
+                match invalidate_id s6 uid with
+                | Ok s7 => Out s7 false a0 true
+                | Raise _ => Out s6 false a0 true
+                end
+            | _, _ => Out s5 false a0 true
+            end
+        end
       else Out s4 false a0 false
     end
   end.
@@ -613,15 +643,45 @@ Definition cmd_register (timeout now : Z) (o : oracle) (s : st) (P name : str) :
     if negb (o_name o) then Out s2 false a0 false else
     let go (addmask : bool) :=
       let '(s3, id) := newUser s2 in
-      if addmask && negb (o_long o) then Out (store s3 id (User name [] [] false)) false a0 true
+      (* except ValueError: users.delUser(user.id); raise *)
+      let undo (s' : st) (e : exn) :=
+        match first_handler gen.T04.REGISTER_HANDLERS e with
+        | Some true => Out (fst (delUser s' id)) false a0 true
+        | _ => Out s' false a0 true
+        end in
+      if addmask && negb (o_long o) then undo (store s3 id (User name [] [] false)) ValueError
       else
         let u := User name (if addmask then [P] else []) [] false in
         let '(s4, r4) := setUser timeout now (store s3 id u) id u in
-        match r4 with Ok _ => Out s4 true a0 false | Raise _ => Out s4 false a0 true end in
+        match r4 with Ok _ => Out s4 true a0 false | Raise e => undo s4 e end in
     match r1 with
     | Ok _ => if o_owner o then go false else Out s2 false a0 false
     | Raise KeyError => go true
     | Raise _ => Out s2 false a0 false
+    end
+  end.
+
+(* user set secure: the sender's own account; the guard is
+   user.checkPassword(password) and user.checkHostmask(msg.prefix, useAuth=False)
+   (gen.T04.SECURE_GUARD_USEAUTH is the useAuth argument of that call) *)
+Definition set_secure (u : user) (v : bool) : user := User (u_name u) (u_masks u) (u_auth u) v.
+Definition cmd_secure (timeout now : Z) (o : oracle) (s : st) (P : str) (value : option bool) : outcome :=
+  let '(s1, r1, a0) := lookup timeout now s P in
+  match r1 with
+  | Raise _ => Out s1 false a0 false
+  | Ok uid =>
+    match uget uid (s_users s1) with
+    | None => Out s1 false a0 false
+    | Some u =>
+      let v := match value with Some b => b | None => negb (u_secure u) end in
+      if negb (o_pw o) then Out s1 false a0 false else
+      let '(u1, x) := checkHostmask false timeout now u P gen.T04.SECURE_GUARD_USEAUTH in
+      let s2 := store s1 uid u1 in
+      if truthy x then
+        let u2 := set_secure u1 v in
+        let '(s3, r3) := setUser timeout now (store s2 uid u2) uid u2 in
+        match r3 with Ok _ => Out s3 true a0 false | Raise _ => Out s3 false a0 true end
+      else Out s2 false a0 false
     end
   end.
 
@@ -633,6 +693,7 @@ Definition cmd_body (timeout now : Z) (o : oracle) (s : st) (P : str) (c : cmd) 
   | CUnidentify => cmd_unidentify timeout now s P
   | CChangename name newname => cmd_changename timeout now o s P name newname
   | CRegister name => cmd_register timeout now o s P name
+  | CSecure value => cmd_secure timeout now o s P value
   end.
 
 (* sending the reply looks the sender up once more (reply options per user) *)
@@ -682,7 +743,8 @@ Definition gCmd (v : value) : cmd :=
   | 2 => CIdentify a
   | 3 => CUnidentify
   | 4 => CChangename a b
-  | _ => CRegister a
+  | 5 => CRegister a
+  | _ => CSecure (match gN (nth_v 1 v) with 0 => Some false | 1 => Some true | _ => None end)
   end.
 
 (* run (kind payload):
